@@ -1,7 +1,11 @@
 import LocustModel.Store.Machine
 import LocustModel.Store.Spec
+import LocustModel.Lemmas.StoreDurableRun
+import LocustModel.Lemmas.StoreExample
 /-
   C13 — columns may come and go; the catalogue lists each exactly once.  Property theorems only.
+  Histories, hypotheses and proof method as in Thm/C08.lean (invariant `Durable`; its clause `LogCat` says that
+  the catalogue rows travelling in the log list every table / column exactly once, for every prefix of the log).
 -/
 namespace LM.C13
 open LM LM.Store
@@ -10,17 +14,78 @@ variable {ν κ : Type} [DecidableEq ν]
 
 /-- A column a batch did not mention reads as NULL for every row of that batch. -/
 theorem C13_missing_is_null (c : CName ν) (b : Batch ν κ) (h : c ∉ b.names) :
-    colCells c b = List.replicate b.nrows Cell.null := by
-  unfold colCells
-  have : b.cols.lookup c = none := by
-    rw [List.lookup_eq_none_iff]
-    intro p hp
-    simp only [Batch.names, List.mem_map, not_exists, not_and] at h
-    have := h p hp
-    simp only [bne_iff_ne, ne_eq]
-    exact fun heq => this heq.symm
-  rw [this]
+    colCells c b = List.replicate b.nrows Cell.null := colCells_missing c b h
 
 example : colCells (ν := Nat) (κ := Nat) (.user 2) ⟨2, [(.user 1, [.val 5, .val 6])]⟩ = [.null, .null] := by decide
+
+/-- After ANY history (flushes, compactions, restarts included):
+    `_meta_tables` lists every table that was ever ingested (and its column-catalogue table) exactly once and
+    nothing else; `_meta_columns_<n>` lists every column name ever ingested into `n` exactly once and nothing else. -/
+theorem C13_catalogue_exact (P : Params ν κ) (hP : ParamsOk P) (ops : List (Op ν κ)) (hwf : HistWF ops) (w : World ν κ)
+    (hrun : run P ops (initWorld P) = .ok w) :
+    (∃ (bs : List (Batch ν κ)) (L : List (TName ν)), content w .metaTables = .ok bs ∧ listedTables bs = L.map Cell.tname ∧
+        L.Nodup ∧ ∀ t, t ∈ L ↔ ∃ n, (t = .user n ∨ t = .metaCols n) ∧ specHasTable ops n) ∧
+    (∀ n, ∃ (bs : List (Batch ν κ)) (L : List (CName ν)), content w (.metaCols n) = .ok bs ∧
+        listedColumns bs = L.map Cell.cname ∧ L.Nodup ∧ ∀ c, c ∈ L ↔ specHasColumn ops (.user n) c) := by
+  obtain ⟨pre, hd⟩ := durable_run P hP ops hwf w hrun
+  have hlc := hd.logcat.whole
+  have huser : ∀ n, logOf (.user n) w.log = acked ops (.user n) := fun n => run_log_user_init P n ops w hrun
+  constructor
+  · obtain ⟨L, h1, h2, h3⟩ := hlc.tabs
+    refine ⟨_, L, hd.content .metaTables, h1, h2, fun t => ?_⟩
+    rw [h3 t]
+    constructor
+    · rintro ⟨hne, hlog⟩
+      cases t with
+      | user n => exact ⟨n, Or.inl rfl, by rw [specHasTable, ← huser n]; exact hlog⟩
+      | metaTables => exact absurd rfl hne
+      | metaCols n =>
+        refine ⟨n, Or.inr rfl, ?_⟩
+        rw [specHasTable, ← huser n]
+        exact fun e => hlog ((hlc.pair n).mp e)
+    · rintro ⟨n, ht | ht, hs⟩
+      · subst ht
+        refine ⟨(by intro e; cases e), ?_⟩
+        rw [huser n]; exact hs
+      · subst ht
+        refine ⟨(by intro e; cases e), ?_⟩
+        rw [specHasTable, ← huser n] at hs
+        exact fun e => hs ((hlc.pair n).mpr e)
+  · intro n
+    obtain ⟨L, h1, h2, h3⟩ := hlc.cols n
+    refine ⟨_, L, hd.content (.metaCols n), h1, h2, fun c => ?_⟩
+    rw [h3 c, specHasColumn, huser n]
+
+/-- A column first seen late reads as NULL for all earlier rows: if no call of the first part of a history
+    mentioned `c` for table `n`, then after the whole history (whatever flushes / compactions / restarts it
+    contains) column `c` of `n` is NULL on exactly the rows of the first part, followed by what the second part gave. -/
+theorem C13_late_column_null (P : Params ν κ) (hP : ParamsOk P) (ops1 ops2 : List (Op ν κ)) (hwf : HistWF (ops1 ++ ops2))
+    (w : World ν κ) (hrun : run P (ops1 ++ ops2) (initWorld P) = .ok w) (n : ν) (c : CName ν)
+    (hlate : c ∉ namesIn (acked ops1 (.user n))) :
+    ∃ bs, content w (.user n) = .ok bs ∧
+      readColumn c bs = List.replicate (rowsLen (acked ops1 (.user n))) Cell.null ++ readColumn c (acked ops2 (.user n)) := by
+  obtain ⟨pre, hd⟩ := durable_run P hP _ hwf w hrun
+  refine ⟨_, hd.content (.user n), ?_⟩
+  rw [run_log_user_init P n _ w hrun, acked_append, readColumn_append, readColumn_missing c _ hlate]
+
+/-- Compaction carries every column over: a flush after ANY history, with ANY planned compactions, leaves the
+    content of every table (all columns of all batches) unchanged, and no compaction ever ran with a name set that
+    missed a column of the partitions it merged (`lossy` stays false). -/
+theorem C13_compaction_keeps_columns (P : Params ν κ) (hP : ParamsOk P) (ops : List (Op ν κ)) (hwf : HistWF ops)
+    (w w' : World ν κ) (fi : FlushIn ν) (hfi : FlushWF fi)
+    (hrun : run P ops (initWorld P) = .ok w) (hflush : flush P w fi = .ok w') :
+    w'.lossy = false ∧ ∀ t, content w' t = content w t := by
+  obtain ⟨pre, hd⟩ := durable_run P hP ops hwf w hrun
+  obtain ⟨hd', hlog, _, _⟩ := hd.flush hP.reencode hfi hflush
+  exact ⟨hd'.lossy, fun t => by rw [hd'.content, hd.content, hlog]⟩
+
+-- non-vacuity: a history with a late column (9), a column that disappears (8), a compaction and a restart;
+-- the catalogue of table 1 lists 7, 8, 9 once each; the late column is NULL on the three earlier rows
+example : ∃ w, ParamsOk Ex.P0 ∧ HistWF Ex.opsA ∧ run Ex.P0 Ex.opsA (initWorld Ex.P0) = .ok w ∧
+    (content w (.metaCols 1)).map listedColumns = .ok [.cname (.user 7), .cname (.user 8), .cname (.user 9)] ∧
+    (content w (.user 1)).map (readColumn (.user 9)) = .ok [.null, .null, .null, .val 3] ∧
+    (content w .metaTables).map listedTables =
+      .ok [.tname (.user 1), .tname (.metaCols 1), .tname (.user 2), .tname (.metaCols 2)] ∧ w.lossy = false :=
+  ⟨_, Ex.P0_ok, Ex.opsA_wf, rfl, rfl, rfl, rfl, rfl⟩
 
 end LM.C13
